@@ -2,7 +2,8 @@
 C11 — text layer shared by the XML scanner, mesh-file, and property-map models.
 A text is a `List Char` in which every character stands for one byte (code < 256); this is how the
 driver decodes the hex-encoded inputs.  Everything here mirrors `kernel/util/string.hpp`
-(`whitespaces`, `trim`, `split_by_charset`, `split_by_string`, `parse<T>` = `iss >> t; !iss.fail()`).
+(`whitespaces`, `trim`, `split_by_charset`, `split_by_string`, `parse<T>` = `iss >> t`, not failed, and the whole
+trimmed string consumed; a leading `-` is rejected for unsigned types).
 Core Lean only.
 -/
 namespace FeatModel.C11
@@ -76,31 +77,33 @@ def readSign : Str → Bool × Str
 
 -- note: `operator>>` first skips `std::isspace` characters; after `trim()` (a superset) there are none left.
 
-/-- `String::parse(Index&)`: `istringstream(trim()) >> unsigned long`.
-    Sign and digit prefix only; a negative value wraps modulo 2^64; out of range ⇒ fail. -/
+/-- `String::parse(Index&)`: `istringstream(trim()) >> unsigned long`, then the whole string must have been
+    consumed.  Optional `+`, digits only; a leading `-` is rejected for unsigned types; out of range ⇒ fail. -/
 def readIndex (s : Str) : Option Nat :=
   let t := trim s
   let (neg, r) := readSign t
-  let (ds, _) := spanDigits r
+  let (ds, rest) := spanDigits r
   if ds.isEmpty then none
+  else if neg then none
+  else if !rest.isEmpty then none
   else
     let v := digitsVal 0 ds
-    if v ≥ 2 ^ 64 then none
-    else if neg && v > 0 then some (2 ^ 64 - v) else some v
+    if v ≥ 2 ^ 64 then none else some v
 
-/-- `String::parse(int&)`: 32-bit signed, overflow ⇒ fail -/
+/-- `String::parse(int&)`: 32-bit signed, overflow ⇒ fail, trailing characters ⇒ fail -/
 def readInt (s : Str) : Option Int :=
   let t := trim s
   let (neg, r) := readSign t
-  let (ds, _) := spanDigits r
+  let (ds, rest) := spanDigits r
   if ds.isEmpty then none
+  else if !rest.isEmpty then none
   else
     let v := digitsVal 0 ds
     if neg then (if v > 2 ^ 31 then none else some (-(v : Int)))
     else (if v ≥ 2 ^ 31 then none else some (v : Int))
 
-/-- `is >> Q` of `harness/c11/q_io.hpp`:
-    `[+-]? D+ ( '/' D+ | ('.' D*)? ([eE] [+-]? D+)? )`, |exponent| ≤ 400 -/
+/-- `String::parse(Q&)` with `is >> Q` of `harness/c11/q_io.hpp`:
+    `[+-]? D+ ( '/' D+ | ('.' D*)? ([eE] [+-]? D+)? )`, |exponent| ≤ 400, nothing may follow -/
 def readQ (s : Str) : Option Rat :=
   let t := trim s
   let (neg, r) := readSign t
@@ -111,8 +114,9 @@ def readQ (s : Str) : Option Rat :=
     let sgn : Int := if neg then -1 else 1
     match r1 with
     | '/' :: r2 =>
-      let (dd, _) := spanDigits r2
+      let (dd, rest) := spanDigits r2
       if dd.isEmpty then none
+      else if !rest.isEmpty then none
       else
         let d := digitsVal 0 dd
         if d == 0 then none else some (mkRat (sgn * n) d)
@@ -128,14 +132,15 @@ def readQ (s : Str) : Option Rat :=
       | e :: r4 =>
         if e == 'e' || e == 'E' then
           let (eneg, r5) := readSign r4
-          let (ed, _) := spanDigits r5
+          let (ed, rest) := spanDigits r5
           if ed.isEmpty then none
+          else if !rest.isEmpty then none
           else
             let ev := digitsVal 0 ed
             if ev > 400 then none
             else if eneg then some (mkRat (sgn * n) (den * 10 ^ ev))
             else some (mkRat (sgn * n * 10 ^ ev) den)
-        else some (mkRat (sgn * n) den)
+        else none
       | [] => some (mkRat (sgn * n) den)
 
 /-- decimal rendering of a natural number (what `os << Index` prints) -/
